@@ -144,6 +144,7 @@ class Swarm:
         self.p_sample = rng.choice([0.0, 0.05, 0.1])
         self.p_chance_fail = rng.choice([0.0, 0.15, 0.25, 0.5])
         self.p_post_terminal = rng.choice([0.0, 0.3, 1.0])
+        self.p_reconstruct = rng.choice([0.0, 0.0, 0.01, 0.03])
         self.exotic_enc = ("C10" in props) or rng.random() < 0.15
 
 
@@ -210,6 +211,24 @@ class EnvSim:
         self.shadow_spec = shadow_spec
         if shadow_spec is not None and scripted:
             self._make_shadow(shadow_spec)
+
+    def _reconstruct(self):
+        """Restart analogue: a new environment is built from the same
+        Scenario object (the only thing that survives); all attack progress
+        and every kept state is gone."""
+        from nasim.envs import NASimEnv
+        try:
+            self.env = NASimEnv(self.scenario, **self.modes)
+        except Exception as e:
+            raise SutError("construct", e)
+        self.table = ActionTable(self.env, self.cfg)
+        self.states.clear()
+        self.state_sids.clear()
+        self.gstep_outputs.clear()
+        self.gstep_ops = []
+        self.__dict__.pop("_pre_cache", None)
+        self.oracle = oracles.Oracles(self)
+        self._do_reset(first=False)
 
     def _make_shadow(self, spec):
         from . import multisim
@@ -332,6 +351,9 @@ class EnvSim:
             self._exec_gstep(op)
         elif kind == "query":
             self.oracle.query(op)
+        elif kind == "reconstruct":
+            self.counters.hit("fault.restart.reconstruct")
+            self._reconstruct()
         elif kind == "shadow":
             if self.shadow is not None:
                 self.counters.hit("fault.foreign_activity.shadow_step")
@@ -443,7 +465,9 @@ class EnvSim:
                 op = {"op": "reset"}
             else:
                 r = wl.random()
-                if r < swarm.p_reset:
+                if wl.random() < swarm.p_reconstruct:
+                    op = {"op": "reconstruct"}
+                elif r < swarm.p_reset:
                     op = {"op": "reset"}
                 elif r < swarm.p_reset + swarm.p_query:
                     op = self._gen_query(wl)
